@@ -1,5 +1,6 @@
 import MxModel.Proofs.C3
 import MxModel.Proofs.StructMechHistory
+import MxModel.Proofs.StructMechRenameSpace
 import MxModel.Proofs.ExecResolveDerived
 import MxModel.Props.C02
 /-!
@@ -383,6 +384,81 @@ example : specDefs [] {} (fun _ _ _ => none) (diamondOps ++ [.renameCells ["A"] 
 example : specDefs [] {} (fun _ _ _ => none) (diamondOps ++ [.renameCells ["A"] "f" "g"]) .cells ["A"] "f" = none := by decide
 -- an operation that is refused (`E(A, B)` has no linearisation)
 example : ((St.run [] {} diamondOps).step [] (.newSpace [] "E" [["A"], ["B"]] [])).2 = false := by decide
+
+/-! ### `rename_space`
+
+`SM.St.renameSpace` (Struct/MechRename.lean, line `renamespace` of the `smech` correspondence) is one
+relabelling `ρ = SM.relabel p new` of every path the state holds.  Histories: `SM.OpR` = the twelve
+operations and renames, `SM.St.runR`. -/
+
+/-- **incremental maintenance equals derivation from scratch, renames included**: after every history of
+the twelve operations and renames of spaces the member table of every space is the derivation from
+scratch, and every space has a linearisation -/
+theorem mech_with_renames_refines_derivation (kw : List String) (ops : List OpR) (a : Attr) (q : Path) (n : String) :
+    (St.runR kw {} ops).mem a q n =
+      (match (St.runR kw {} ops).defd a q n with
+      | some v => some { derived := false, payload := v }
+      | none => ((St.runR kw {} ops).firstDef a ((St.runR kw {} ops).tail q) n).map
+          (fun d => { derived := true, payload := d.2 })) ∧
+    (St.runR kw {} ops).mro q = some (q :: (St.runR kw {} ops).tail q) :=
+  ⟨(runR_inv kw ops).mem_eq_derivation a q n, (runR_inv kw ops).wf.mro_all q⟩
+
+/-- **`rename_space` commutes with derivation**: an accepted rename in a reachable state is the relabelling
+`ρ` of the whole structural state - the spaces of the new state are the images of the spaces; for every
+space `q` the direct bases, the C3 linearisation and its tail of `ρ q` are the images of those of `q`
+(linearisation commutes with the relabelling), the member table and the definitions of `ρ q` are those of
+`q` (nothing is re-derived, nothing needs to be) - and the new state is again the derivation from scratch
+from its own definitions along its own linearisations. -/
+theorem rename_space_commutes_with_derivation (kw : List String) (ops : List OpR) (p : Path) (new : String)
+    (st' : St) (hop : (St.runR kw {} ops).renameSpace kw p new = .ok st') :
+    st'.ids = (St.runR kw {} ops).ids.map (relabel p new) ∧
+    (∀ q ∈ (St.runR kw {} ops).ids,
+      st'.basesOf (relabel p new q) = ((St.runR kw {} ops).basesOf q).map (relabel p new) ∧
+      st'.mro (relabel p new q) = ((St.runR kw {} ops).mro q).map (List.map (relabel p new)) ∧
+      st'.tail (relabel p new q) = ((St.runR kw {} ops).tail q).map (relabel p new) ∧
+      ∀ a n, st'.mem a (relabel p new q) n = (St.runR kw {} ops).mem a q n ∧
+        st'.defd a (relabel p new q) n = (St.runR kw {} ops).defd a q n) ∧
+    (∀ a q n, st'.mem a q n =
+      match st'.defd a q n with
+      | some v => some { derived := false, payload := v }
+      | none => (st'.firstDef a (st'.tail q) n).map (fun d => { derived := true, payload := d.2 })) := by
+  have hi := runR_inv kw ops
+  obtain ⟨h1, _, h3⟩ := renameSpace_commutes kw _ st' hi p new hop
+  exact ⟨h1, h3, fun a q n => (inv_renameSpace kw _ st' hi p new hop).mem_eq_derivation a q n⟩
+
+/-- the transport lemma behind it, for every state and every injective relabelling `ρ` of paths:
+linearisations, member tables, definitions and first definers commute with `ρ` -/
+theorem derivation_commutes_with_injective_relabelling (ρ : Path → Path) (hρ : ∀ x y, ρ x = ρ y → x = y)
+    (st : St) (a : Attr) (q : Path) (n : String) :
+    (st.mapPaths ρ).mro (ρ q) = (st.mro q).map (List.map ρ) ∧
+    (st.mapPaths ρ).mem a (ρ q) n = st.mem a q n ∧
+    (st.mapPaths ρ).defd a (ρ q) n = st.defd a q n ∧
+    (st.mapPaths ρ).firstDef a ((st.mapPaths ρ).tail (ρ q)) n =
+      (st.firstDef a (st.tail q) n).map (fun d => (ρ d.1, d.2)) :=
+  ⟨mro_mapPaths ρ st hρ q, mem_mapPaths ρ st hρ a q n, defd_mapPaths ρ st hρ a q n,
+    by rw [tail_mapPaths ρ st hρ, firstDef_mapPaths ρ st hρ]⟩
+
+/-! Non-vacuity: `A.A` (bearing its parent's name) defines `f` and is the base of `T`; `D` derives from `T`;
+after `A.A` is renamed to `B`, `T` and `D` still derive `f` - now along the linearisation `[A.B]` / `[T, A.B]`. -/
+
+def renOps : List OpR := [
+  .op (.newSpace [] "A" [] []), .op (.newSpace ["A"] "A" [] []), .op (.newCells ["A", "A"] "f" "f" 1),
+  .op (.newSpace [] "T" [["A", "A"]] []), .op (.newSpace [] "D" [["T"]] []),
+  .renameSpace ["A", "A"] "B", .op (.setFormula ["A", "B"] "f" 5), .renameSpace ["A"] "T"]
+
+example : (St.runR [] {} (renOps.take 5)).tail ["D"] = [["T"], ["A", "A"]] := by decide
+example : (St.runR [] {} (renOps.take 6)).tail ["D"] = [["T"], ["A", "B"]] := by decide
+example : (St.runR [] {} (renOps.take 6)).mem .cells ["D"] "f" = some { derived := true, payload := 1 } := by decide
+example : (St.runR [] {} (renOps.take 7)).mem .cells ["D"] "f" = some { derived := true, payload := 5 } := by decide
+example : (St.runR [] {} (renOps.take 7)).firstDef .cells ((St.runR [] {} (renOps.take 7)).tail ["D"]) "f"
+    = some (["A", "B"], 5) := by decide
+-- the last rename is refused (`T` is a top-level space): nothing changes
+example : (St.runR [] {} renOps).ids = (St.runR [] {} (renOps.take 7)).ids := by decide
+example : ∃ st', (St.runR [] {} (renOps.take 5)).renameSpace [] ["A", "A"] "B" = .ok st' ∧
+    st'.ids = (St.runR [] {} (renOps.take 5)).ids.map (relabel ["A", "A"] "B") :=
+  ⟨(St.runR [] {} (renOps.take 5)).mapPaths (relabel ["A", "A"] "B"), by rfl,
+    (rename_space_commutes_with_derivation [] (renOps.take 5) ["A", "A"] "B" _ (by rfl)).1⟩
+example := mech_with_renames_refines_derivation [] renOps .cells ["D"] "f"
 
 end mechanism
 
